@@ -1,6 +1,6 @@
 import CallbagModel.Ops.Pipeline
 import CallbagModel.Script
-import CallbagModel.Closed.ProgDef
+import CallbagModel.Closed.Prog2Def
 /-!
 # Pipelines (C06): parse the textual description shared with harness/src/pipe.rs, evaluate the model (`sem`, `listSem`), compare
 -/
@@ -90,27 +90,38 @@ def toStg : Sx → Option (Closed.Stg × Sx)
   | .list [.atom "skip", n, p] => (sxNat n).map fun n => (.skip n, p)
   | _ => none
 
-/-- programs of sources, unary stages and BINARY `concat!` as syntax (`Closed/ProgDef.lean`) -/
-partial def toProg (sx : Sx) : Option Closed.Prog :=
+/-- programs of sources, unary stages, BINARY `concat!` and `flatmap rep` as syntax (`Closed/Prog2Def.lean`) -/
+partial def toProg2 (sx : Sx) : Option Closed.Prog2 :=
   match sx with
   | .list [.atom "src", n] => (sxNat n).map fun n => .src (rangeFrom 1 n)
   | .list [.atom "src", n, a] => match sxNat n, sxInt a with | some n, some a => some (.src (rangeFrom a n)) | _, _ => none
   | .list [.atom "inf", a] => (sxInt a).map fun a => .src (rangeFrom a infLen)
-  | .list [.atom "concat", p, q] => match toProg p, toProg q with | some p, some q => some (.concat p q) | _, _ => none
+  | .list [.atom "concat", p, q] => match toProg2 p, toProg2 q with | some p, some q => some (.concat p q) | _, _ => none
+  | .list [.atom "flatmap", .atom "rep", k, p] => match sxNat k, toProg2 p with | some k, some p => some (.flatRep k p) | _, _ => none
   | _ => match toStg sx with
-    | some (st, p) => (toProg p).map fun p => .stage st p
+    | some (st, p) => (toProg2 p).map fun p => .stage st p
     | none => none
 
-/-- … as ONE machine.  Programs of sources, unary stages and binary `concat!`: `Closed.Prog.toM` — the term `Closed.prog_correct`
-(Closed/Prog.lean) is about; for linear programs it is the term `Closed.chainM xs ss` of `Closed.linear_correct`.  An n-ary `concat!`
-(n ≥ 3) is built by plugging every member into the n-ary concat machine (`Closed.concatM`; no theorem, the comparison only), stages on
-top composed.  `flatmap` creates sources dynamically and has no static network: `none`. -/
+/-- `flatten(map(|a| take(k)(from_iter(1 .. a % 4)))(A))`: the `tri` family of the stream (inner sources are two-machine pipelines) -/
+def flatTriM (k : Nat) (A : Closed.AnyM) : Closed.AnyM :=
+  let inner := Closed.thenM (Closed.srcM []) (Closed.takeM k)
+  { St := FPSt A.St inner.St, Loc := List (FFr A.Loc (Flatten.Loc Int) inner.Loc),
+    M := flatPlug A.M inner.M (fun a => ({ (Closed.srcM []).M.init with it := rangeFrom 1 (a % 4).toNat }, (Closed.takeM k).M.init)),
+    nexts := fun s => A.nexts s.outer + (s.inners.map (fun p => inner.nexts p.2)).sum }
+
+/-- … as ONE machine — EVERY program of the stream.  Sources, unary stages, binary `concat!`, `flatmap rep`: `Closed.Prog2.toM`, the term
+`Closed.prog2_correct` (Closed/Prog2.lean) is about (its side condition `Prog2.ok` — `take n` with `n ≥ 1`, `flatmap` over a linear
+program — is not checked here: the comparison runs on every program); for programs without `flatmap` it is the term `Closed.Prog.toM` of
+`Closed.prog_correct`, for linear ones `Closed.chainM xs ss` of `Closed.linear_correct`.  n-ary `concat!` (n ≥ 3): every member plugged
+into the n-ary concat machine (`Closed.concatM`); `flatmap tri`: `flatTriM`; no theorem for these two, the comparison only. -/
 partial def toAnyM (sx : Sx) : Option Closed.AnyM :=
-  match toProg sx with
+  match toProg2 sx with
   | some p => some p.toM
   | none =>
     match sx with
     | .list (.atom "concat" :: ms) => (ms.mapM toAnyM).map Closed.concatM
+    | .list [.atom "flatmap", .atom "rep", k, p] => match sxNat k, toAnyM p with | some k, some A => some (Closed.flatM k A) | _, _ => none
+    | .list [.atom "flatmap", .atom "tri", k, p] => match sxNat k, toAnyM p with | some k, some A => some (flatTriM k A) | _, _ => none
     | _ => match toStg sx with
       | some (st, p) => (toAnyM p).map fun A => Closed.thenM A st.toM
       | none => none
